@@ -90,6 +90,9 @@ func absentTargets(f *fx.Fixture, t *abs.Tree, g *gen.G) []abs.Path {
 				key[i] = "zz9"
 				if kt := f.DS.Node(append(append([]string{}, n.SP...), n.Keys[i])).Type; kt != "string" {
 					key[i] = "99"
+					if kt == "binary" {
+						key[i] = "AAAA"
+					}
 					if kt == "boolean" || kt == "enumeration" {
 						key = nil
 						break
